@@ -12,8 +12,12 @@ use mila::{arc, fe9_arc, ASetFile, AssetBinary, BinArchive, Endian, TextArchive,
 
 pub const HARD_CAP: usize = 256 << 20;
 
-fn soft_bound(len: usize) -> usize {
-    (1 << 20) + 64 * len
+/// Largest single allocation request tolerated for an input of `len` bytes: a fixed 128 KiB plus a
+/// constant multiple of the input. The multiple is 64 for the byte-oriented parsers; the asset
+/// binary reader legitimately turns a 4-byte record into an in-memory spec of about 900 bytes held
+/// in a doubling vector, so its constant is 512.
+fn soft_bound(entry: &str, len: usize) -> usize {
+    (128 << 10) + if entry.starts_with("asset") { 512 } else { 64 } * len
 }
 
 fn err_class(e: &str) -> String {
@@ -40,14 +44,17 @@ impl<'a, 'b> Probe<'a, 'b> {
         let max_req = monitor::alloc_watch_end();
         self.c.eval(1);
         self.c.stat_max("max_cpu_seconds_per_call", dt);
-        let bound = soft_bound(self.input.len());
+        let bound = soft_bound(entry, self.input.len());
         self.c.stat_max("max_alloc_request_over_bound", max_req as f64 / bound as f64);
         self.c.stat_max("max_single_alloc_request_bytes", max_req as f64);
+        if self.input.len() <= 256 {
+            self.c.stat_max("max_single_alloc_request_bytes_for_inputs_up_to_256_bytes", max_req as f64);
+        }
         if max_req > bound {
             self.c.fail(
                 "alloc_bound",
                 &format!("alloc_bound:{}", entry),
-                format!("{}: single allocation request of {} bytes for an input of {} bytes (bound 1 MiB + 64 x len = {}) [{}] input={}", entry, max_req, self.input.len(), bound, self.what, hex_short(self.input, 160)),
+                format!("{}: single allocation request of {} bytes for an input of {} bytes (bound 128 KiB + 64 x len, 512 x len for the asset reader = {}) [{}] input={}", entry, max_req, self.input.len(), bound, self.what, hex_short(self.input, 160)),
             );
         }
         if let Some(r) = &r {
@@ -540,7 +547,7 @@ fn hdr(be: bool, file: u32, data: u32, ptrs: u32, labels: u32, rest: &[u8], tota
 
 pub fn run(cx: &mut Ctx) {
     cx.require(REQUIRED);
-    cx.rule = "inputs: (1) random bytes, lengths 0..=4096 with emphasis on 0..=0x40; (2) seeds = the repository's sample files and reference-built bin/text/pack/arc images plus library-built aset/asset-binary files; (3) structure-aware mutants of every seed: every header word, pointer/label table entry, referenced cell and leading/trailing data word replaced by each boundary value (0,1,3,4,7,8,len-1,len,len+1,data-4,data,data+1,len-0x20,0x00FFFFFF,0x01000000,0x7FFFFFFF,0x80000000,0xFFFFFFFC,0xFFFFFFFF,...) in both byte orders, header sums that wrap in 32 bits to {0,data,len-0x20}, string terminators removed, labels renamed, pack magic bit flips and count values, every strict prefix <= 2 KiB; (4) random splices and bit flips. Every input goes to BinArchive::from_bytes LE/BE, TextArchive::from_bytes x {Shift-JIS,UTF-16} x {LE,BE}, arc::from_bytes, fe9_arc::parse, and ASetFile/AssetBinary::from_archive on every accepted archive; Ok results are re-serialized. Monitors: panic hook, abort/signal supervision per case, counting allocator (violation above 1 MiB + 64 x len, hard stop at 256 MiB), CPU clock, over-declaring-header oracle computed in u64. non-trivial = input that got past its parser's first size check or produced an outcome class not seen before; distinct by (input, entry point) hash".into();
+    cx.rule = "inputs: (1) random bytes, lengths 0..=4096 with emphasis on 0..=0x40; (2) seeds = the repository's sample files and reference-built bin/text/pack/arc images plus library-built aset/asset-binary files; (3) structure-aware mutants of every seed: every header word, pointer/label table entry, referenced cell and leading/trailing data word replaced by each boundary value (0,1,3,4,7,8,len-1,len,len+1,data-4,data,data+1,len-0x20,0x00FFFFFF,0x01000000,0x7FFFFFFF,0x80000000,0xFFFFFFFC,0xFFFFFFFF,...) in both byte orders, header sums that wrap in 32 bits to {0,data,len-0x20}, string terminators removed, labels renamed, pack magic bit flips and count values, every strict prefix <= 2 KiB; (4) random splices and bit flips. Every input goes to BinArchive::from_bytes LE/BE, TextArchive::from_bytes x {Shift-JIS,UTF-16} x {LE,BE}, arc::from_bytes, fe9_arc::parse, and ASetFile/AssetBinary::from_archive on every accepted archive; Ok results are re-serialized. Monitors: panic hook, abort/signal supervision per case, counting allocator (violation above 128 KiB + 64 x len (512 x len for the asset-binary reader, whose in-memory record is ~900 bytes), hard stop at 256 MiB), CPU clock, over-declaring-header oracle computed in u64. non-trivial = input that got past its parser's first size check or produced an outcome class not seen before; distinct by (input, entry point) hash".into();
     let miri = cfg!(miri);
     // ---- directed situations (the shapes found while reading the code, and their neighbours)
     cx.case("wrapping_header_sum", |c| {
@@ -642,6 +649,25 @@ pub fn run(cx: &mut Ctx) {
             });
         }
     }
+    if !cfg!(miri) {
+        // every entry in range, but the entries overlap so heavily that their sizes add up to more
+        // than 2^32 (sums of size fields must not be formed in 32 bits)
+        cx.case("pack_overlapping_entries", |c| {
+            c.sit("pack_entries_whose_sizes_add_up_beyond_4GiB");
+            let count = 65535usize;
+            let mut img = vec![0u8; 8 + 16 * count + 32];
+            img[0..4].copy_from_slice(b"pack");
+            img[4..6].copy_from_slice(&(count as u16).to_be_bytes());
+            let name_at = (8 + 16 * count) as u32; // a zero byte: the empty name
+            for i in 0..count {
+                let e = 8 + 16 * i;
+                img[e + 4..e + 8].copy_from_slice(&name_at.to_be_bytes());
+                img[e + 8..e + 12].copy_from_slice(&0u32.to_be_bytes());
+                img[e + 12..e + 16].copy_from_slice(&0x0001_0010u32.to_be_bytes());
+            }
+            probe(c, &img, "pack of 65535 overlapping entries of 0x10010 bytes each (4.3 GB in total)");
+        });
+    }
     cx.case("arc_fields", |c| {
         c.sit("arc_offset_plus_0x60_overflow");
         let files = vec![("a.bin".to_string(), vec![1u8, 2, 3]), ("b.bin".to_string(), vec![4u8; 9])];
@@ -649,6 +675,17 @@ pub fn run(cx: &mut Ctx) {
         for _ in 0..(if cfg!(miri) { 3 } else { 24 }) {
             let plan = ArcPlan { padded_header: true, out_of_range_record: Some(r.below(2)), ..Default::default() };
             probe(c, &arc_build(&files, &plan, &mut r), "arc record range outside the data");
+        }
+        // the same with long names whose multi-byte characters sit at every offset around 64 / 128 / 256
+        if !cfg!(miri) {
+            for pre in [29usize, 30, 31, 61, 62, 63, 64, 125, 126, 127, 253, 254, 255] {
+                let long: Vec<(String, Vec<u8>)> = vec![(format!("{}あいうえお.bin", "a".repeat(pre)), vec![7u8; 5]), (format!("{}日本語ﾃｸｽﾁｬ", "b".repeat(pre)), vec![8u8; 3])];
+                for slot in 0..2 {
+                    let plan = ArcPlan { padded_header: pre % 2 == 0, out_of_range_record: Some(slot), ..Default::default() };
+                    probe(c, &arc_build(&long, &plan, &mut r), "arc record range outside the data, long non-ASCII names");
+                }
+                probe(c, &arc_build(&long, &ArcPlan { nameless_record: Some(0), ..Default::default() }, &mut r), "arc record without a name next to long non-ASCII names");
+            }
         }
         // Count = 0, 1, 2^31, 2^32-1
         let base = arc_build(&files, &ArcPlan { padded_header: true, ..Default::default() }, &mut Rng::new(3));
